@@ -286,8 +286,8 @@ theorem repartition_more (cuts : Nat → List Nat) (m : Nat) (b : Bag α) (hb : 
     exact hlen i hi)
   refine ⟨?_, ?_⟩
   · simp only [den]
-    rw [this.1, List.map_fst_zip (by simp [hnl])]
-  · rw [this.2, List.map_snd_zip (by simp [hnl]), hsum]
+    rw [this.1, List.map_fst_zip (by rw [hnl]; exact Nat.le_refl _)]
+  · rw [this.2, List.map_snd_zip (by rw [hnl]; exact Nat.le_refl _), hsum]
 
 /-- same number of partitions: the bag itself -/
 theorem repartition_same (cuts : Nat → List Nat) (b : Bag α) : repartitionB cuts b.length b = b := by
